@@ -1,6 +1,7 @@
 package main
 
 import (
+	"sort"
 	"go/types"
 	"regexp/syntax"
 	"strconv"
@@ -94,6 +95,27 @@ func runC10(p *Program, r *Result) {
 	workFactorPattern := checkScryptWorkBound(p, r, idunwrap)
 
 	// ---- R10.4
+	r.Rule("R10.6", "a passphrase identity decides every header afresh: Unwrap and unwrap store into no field of ScryptIdentity (a remembered stanza or key would let a later header past the only-stanza and work-factor checks)", 1)
+	for _, name := range []string{"Unwrap", "unwrap"} {
+		fn := p.Func(pkgAge, "ScryptIdentity", name)
+		if fn == nil {
+			continue
+		}
+		r.Saw(fn.String())
+		var hit []string
+		if e := p.EffectsOf(fn); e != nil {
+			for f := range e.AllFields {
+				if strings.HasPrefix(f, pkgAge+".ScryptIdentity.") {
+					hit = append(hit, short(f))
+				}
+			}
+		}
+		if e := p.EffectsOf(fn); e != nil && e.WritesParam[0] && len(hit) == 0 {
+			hit = append(hit, "memory reachable from the receiver")
+		}
+		sort.Strings(hit)
+		r.Check(len(hit) == 0, fn.String(), "receiver-state", "", "no field of the identity is written while unwrapping", "unwrapping stores into "+strings.Join(hit, ", ")+": what the identity accepts then depends on the headers it has seen before")
+	}
 	r.Rule("R10.4", "the configured maximum is set only by the constructor default and the guarded setter", 2)
 	for _, fs := range p.fieldStores(pkgAge+".ScryptIdentity", "maxWorkFactor") {
 		tb := p.TB(fs.Fn)
